@@ -25,7 +25,9 @@ PROPS = {
     "C03": dict(pkg="c03", shards=(4, 16), timeout=(600, 3600), typereg=True),
     "C09": dict(pkg="c09", shards=(2, 8), timeout=(900, 5400)),
     "C10": dict(pkg="c10", shards=(2, 8), timeout=(600, 3600)),
+    "C13": dict(pkg="c13", race=True, shards=(4, 16), timeout=(600, 5400)),
     "C16": dict(pkg="c16", shards=(4, 16), timeout=(600, 3600)),
+    "C17": dict(pkg="c17", shards=(2, 16), timeout=(300, 3600)),
     "C18": dict(pkg="c18", shards=(4, 16), timeout=(600, 3600)),
     "C19": dict(pkg="c19", shards=(2, 8), timeout=(600, 3600)),
     "C20": dict(pkg="c20", shards=(4, 16), timeout=(600, 3600), typereg=True),
